@@ -209,7 +209,9 @@ def hSched : Handler := fun impl => do
     (if ivs.length = n ∧ ¬ Spec.C12.holds13 faults ivs then ["bad:C13:partial-data-served-or-request-stuck"] else []) ++
     -- C08 in schedules: the scripted origin grants no stale-if-error / stale-while-revalidate, so
     -- nobody may be handed an expired entry (view token C<v>s = served with richie-edge-cache: stale)
-    (if ivs.any (fun v => v.startsWith "C" && v.endsWith "s") then ["bad:C08:expired-entry-served-without-revalidation-or-allowance"] else [])
+    (if ivs.any (fun v => v.startsWith "C" && v.endsWith "s") then ["bad:C08:expired-entry-served-without-revalidation-or-allowance"] else []) ++
+    -- C07 in schedules: a view M<b>/<e> pairs the body of one stored response with the validator of another
+    (if ivs.any (fun v => v.startsWith "M") then ["bad:C07:body-of-one-response-under-the-headers-of-another"] else [])
   let oracle := if ivs.length ≠ n then "na" else if bad.isEmpty then "ok" else ",".intercalate bad
   let label := s!"n{n}:" ++ (if noFault then "nofault" else "fault") ++
     (if sEnd.fetches > 1 then ":refetch" else "") ++ (if (List.range n).any (fun i => toks.contains s!"T{i}") then ":rewait" else "")
